@@ -73,7 +73,7 @@ const std::vector<std::string> &mathElements()
 
 std::string applyEdit(std::string doc, Src &src, Case &c)
 {
-    switch (src.below(20)) {
+    switch (src.below(22)) {
     case 0: { // hostile number in a numeric attribute
         static const std::vector<std::string> attrs = {"exponent", "multiplier", "prefix", "order", "initial_value"};
         std::string a = src.pick(attrs);
@@ -397,6 +397,47 @@ std::string applyEdit(std::string doc, Src &src, Case &c)
                                                            "<apply><diff/><bvar><ci>t</ci><degree><cn cellml:units=\"dimensionless\">2</cn></degree></bvar><ci>x</ci></apply>"};
             doc.insert(src.pick(occ) + 7, src.pick(junk));
             c.cls("edit:math-misplaced-qualifier");
+        }
+        break;
+    }
+    case 20: { // a cn in e-notation with hostile mantissa / exponent (1<sep/>999: a number out of the range of a double)
+        auto occ = findAll(doc, "<cn ");
+        if (!occ.empty()) {
+            static const std::vector<std::string> parts = {"1", "999", "-999", "308", "309", "-400", "1e5", "", ".", "-", "2.5", "99999999999", "+3", " 7 "};
+            size_t o = src.pick(occ);
+            size_t p = doc.find('>', o);
+            size_t e = p == std::string::npos ? p : doc.find("</cn>", p);
+            if (e != std::string::npos && doc[p - 1] != '/') {
+                std::string body = src.pick(parts) + "<sep/>" + src.pick(parts);
+                if (src.flip(15)) {
+                    body += "<sep/>" + src.pick(parts);
+                }
+                doc.replace(p + 1, e - p - 1, body);
+                if (!src.flip(15)) {
+                    doc.insert(o + 3, " type=\"e-notation\"");
+                }
+                c.cls("edit:cn-e-notation");
+            }
+        }
+        break;
+    }
+    case 21: { // a very long run of white space (or of one other character) inside character data or between tags
+        static const std::vector<size_t> lengths = {2000, 20000, 45000, 60000};
+        static const std::vector<std::string> fill = {" ", " ", "\n", "\t", " \n", "x", "&amp;"};
+        static const std::vector<std::string> anchors = {"<ci>", "</ci>", "<cn ", "</cn>", "<apply>", "</math>", "name=\"", "units=\"", "<variable ", "</component>", "initial_value=\""};
+        auto occ = findAll(doc, src.pick(anchors));
+        if (!occ.empty()) {
+            size_t p = src.pick(occ);
+            size_t q = doc.find_first_of(">\"", p);
+            if (q != std::string::npos) {
+                std::string f = src.pick(fill), run;
+                size_t n = src.pick(lengths);
+                while (run.size() < n) {
+                    run += f;
+                }
+                doc.insert(q + 1, run);
+                c.cls("edit:long-run");
+            }
         }
         break;
     }
